@@ -1,8 +1,11 @@
 import SFV.Model.JobDirs
+import SFV.Model.DirReg
+import SFV.Gen.DirRegGuard
 import SFV.Model.Proto
 open SFV SFV.Proto SFV.JobDirs
 
 /-! `dirs <reqs…>` with one request per scheduling: `<job>:<nlocs>:<fixIn|->:<fixOut|->:<fixTmp|->`
+    `reg <dep>.<name>,… <ndirs>` -> `ok registered=<n> per-location=<n,…>`
     -> `ok jobs=<n> distinct=<number of distinct directories> generated=<supply used> cells=<existing (loc,dir) cells>` -/
 
 def optN (w : String) : Option Nat := if w = "-" then none else w.toNat?
@@ -21,6 +24,20 @@ def handle : List String → String
           let s := run rs
           let all := s.jobs.flatMap (·.2)
           s!"ok jobs={s.jobs.length} distinct={all.eraseDups.length} generated={s.next} cells={s.fs.eraseDups.length}"
+      | none => "bad-op"
+  | ["reg", locs, nd] =>
+      -- `reg <dep>.<name>,<dep>.<name>,… <ndirs>`: registration loop with the generated guard on an empty registry
+      let ls := (locs.splitOn ",").filterMap (fun w => match w.splitOn "." with
+        | [a, b] => match a.toNat?, b.toNat? with
+          | some a, some b => some (a, b)
+          | _, _ => none
+        | _ => none)
+      match nd.toNat? with
+      | some n =>
+          let ds := (List.range n).map (fun k => Dir.gen 0 k)
+          let reg := SFV.DirReg.regLoop SFV.Gen.regSameKey [] (SFV.DirReg.cells ls ds)
+          let per := ls.map (fun l => (reg.filter (fun c => c.1 == l)).length)
+          s!"ok registered={reg.length} per-location={",".intercalate (per.map toString)}"
       | none => "bad-op"
   | _ => "bad-op"
 
